@@ -266,7 +266,9 @@ FCmpSem(o, lit, v) ==
 cId == <<105, 100>>
 FHas(row, name) == \E k \in 1..Len(row) : row[k][1] = name
 FGet(row, name) == IF FHas(row, name) THEN row[CHOOSE k \in 1..Len(row) : row[k][1] = name][2] ELSE FAbsent
-FIdRows(rows, name) == {i \in 1..Len(rows) : LET v == FGet(rows[i], cId) IN v[1] = 10 /\ v[2] = name}
+\* "the row whose id matches a reference": its id is a Ref of that name -- or, in hand-built grids (the repository's
+\* own tests), the name as a plain string
+FIdRows(rows, name) == {i \in 1..Len(rows) : LET v == FGet(rows[i], cId) IN (v[1] = 10 \/ v[1] = 7) /\ v[2] = name}
 
 \* <<determined, value>>: following a Ref that several rows answer to is not determined
 RECURSIVE FResolveFrom(_, _, _, _)
